@@ -16,6 +16,7 @@ INTRIN = {
     # loads / stores
     '_mm_loadu_si128': ('load', 1), '_mm_load_si128': ('load', 1), '_mm256_loadu_si256': ('load', 2), 'vld1q_u8': ('load', 1),
     '_mm_storeu_si128': ('store', 1), '_mm256_storeu_si256': ('store', 2), 'vst1q_u8': ('store', 1),
+    '_mm_store_si128': ('store', 1), '_mm256_store_si256': ('store', 2), '_mm256_load_si256': ('load', 2),   # alignment is C03.b's business
     # lane-wise logic
     '_mm_xor_si128': ('xor',), '_mm256_xor_si256': ('xor',), 'veorq_u8': ('xor',),
     '_mm_and_si128': ('and',), '_mm256_and_si256': ('and',), 'vandq_u8': ('and',),
